@@ -18,6 +18,7 @@ import os
 import shutil
 import sys
 import tempfile
+import time
 from typing import Any
 
 from harness import ext_c03 as x3
@@ -26,6 +27,7 @@ from harness import fakes, tlc
 from harness.report import Check, main_wrapper
 
 PID = "C03"
+DST_TZ = "CET-1CEST,M3.5.0,M10.5.0/3"     # a host zone with daylight saving (central European rules)
 CLAUSE_TEXT = {
     "a": "verb|code is not the one the constructor is registered under",
     "b": "the library's own decoder rejects the frame built",
@@ -49,6 +51,10 @@ def do_replay(path: str) -> None:
     obj = json.load(open(path))
     rp = obj.get("replay", obj)
     fakes.quiet_logging()
+    if rp.get("tz"):
+        os.environ["TZ"] = rp["tz"]
+        time.tzset()
+        print(f"host time zone: {rp['tz']}")
     row = x3.call_row(rp["ctor"], rp["args"])
     shown = ", ".join(f"{a['slot']}={x3.value_of(a)!r}" for a in rp["args"] if a["tag"] != "absent")
     print(f"Command.{rp['ctor']}({shown})")
@@ -85,6 +91,24 @@ def main(tier: str, replay: str | None) -> None:
     for st in states:
         args = [dict(a, l=list(a["l"])) for a in st["args"]]
         rows.append(x3.call_row(st["ctor"], args))
+    # the same calls once more where the host's time zone has daylight saving (central European rules): the
+    # datetime classes udst / udstend then fall into the skipped / repeated hour of the local clock
+    twin: dict[int, int] = {}
+    base_n = len(rows)
+    old_tz = os.environ.get("TZ")
+    os.environ["TZ"] = DST_TZ
+    time.tzset()
+    try:
+        for i, st in enumerate(states):
+            if any(a["t"] == "dtm" for a in st["args"]):
+                twin[len(rows)] = i
+                rows.append(x3.call_row(st["ctor"], [dict(a, l=list(a["l"])) for a in st["args"]]))
+    finally:
+        if old_tz is None:
+            os.environ.pop("TZ", None)
+        else:
+            os.environ["TZ"] = old_tz
+        time.tzset()
     ctors = sorted({r["ctor"] for r in rows})
     from ramses_tx.command import CODE_API_MAP
     real_map = {k: v.__name__ for k, v in CODE_API_MAP.items()}
@@ -109,9 +133,14 @@ def main(tier: str, replay: str | None) -> None:
     n_fail = {c: 0 for c in "abcd"}
     n_drift = 0
     map_drift: set[str] = set()
+    rejected = {i: parse_fail(fail) for i, fail in res["rejects"]}
     for i, fail in res["rejects"]:
         r = rows[i]
         cl, want = parse_fail(fail)
+        if i in twin:
+            if rejected.get(twin[i]) == (cl, want):
+                continue          # fails the same way whatever the time zone: reported once, by the UTC row
+            r["tz"] = DST_TZ
         dflt = defaults[r["ctor"]]
         nd = frozenset((j2, a["tag"]) for j2, a in enumerate(r["args"]) if a["tag"] != dflt[j2])
         if "k" in cl and r["ctor"] not in map_drift:
@@ -134,13 +163,14 @@ def main(tier: str, replay: str | None) -> None:
             n_minimal += 1
             r = rows[i]
             sig = _sig(r["args"], defaults[ctor], grp=True)
-            key = f"C03{c}:{ctor}:{sig}" + (f":{want}" if c == "c" else "")
+            key = f"C03{c}:{ctor}:{sig}" + (f":{want}" if c == "c" else "") + (":tz=dst" if r.get("tz") else "")
             shown = ", ".join(f"{a['slot']}={x3.value_of(a)!r}" for a in r["args"] if a["tag"] != "absent")
             what = (f"{CLAUSE_TEXT[c]}: Command.{ctor}({shown}) -> "
                     + (f"{r['frame']!r}" if r["built"] else f"raises {r['exc']}")
                     + (f"; decoder: {r['dexc']}" if r["built"] and not r["dec"] else "")
                     + (f"; decoded {r.get('payload', '')} lacks/alters {want!r}" if c == "c" else ""))
-            chk.violation(key, what, {"ctor": ctor, "args": r["args"]})
+            chk.violation(key, what + (f"  [host time zone {r['tz']}]" if r.get("tz") else ""),
+                          {"ctor": ctor, "args": r["args"], "tz": r.get("tz", "")})
 
     n_built = sum(r["built"] for r in rows)
     n_dec = sum(r["dec"] for r in rows)
@@ -154,7 +184,7 @@ def main(tier: str, replay: str | None) -> None:
                         "decoded": r.get("payload", r["dexc"])})
     chk.finish(
         coverage={
-            "programs": len(rows), "constructors": len(ctors), "api_keys": len(real_map),
+            "programs": len(rows), "programs_under_dst_zone": len(rows) - base_n, "constructors": len(ctors), "api_keys": len(real_map),
             "disagreements_checked": len(res["rejects"]),
             "states": mc.distinct, "transitions": mc.states, "mc_invariants": 6, "traces_validated_against_impl": res["n"],
             "calls_built": n_built, "calls_refused": len(rows) - n_built, "built_and_decoded": n_dec,
@@ -166,6 +196,7 @@ def main(tier: str, replay: str | None) -> None:
             "'to wire resolution' = equality on the 0.01 grid (temperatures, ratios) / minute or second (datetimes); C04 owns the codec grids",
             "documented domain (clause d) is read off the constructors' own range checks and docstrings (J6)",
             "a refusal may be any exception; which one is not judged",
+            f"calls that take a datetime are made twice: host zone UTC and {DST_TZ}",
         ],
     )
 
